@@ -351,6 +351,10 @@ impl SecondaryTransaction {
         if self.read_only {
             panic!("Txn is read-only but append is called");
         }
+        // nothing to store (e.g. `INSERT ... SELECT` of no rows): do not open a row-set for it
+        if columns.cardinality() == 0 {
+            return Ok(());
+        }
         if self.mem.is_none() {
             let rowset_id = self.table.generate_rowset_id();
             let directory = self.table.get_rowset_path(rowset_id);
